@@ -31,9 +31,9 @@ def request(rng, close=False, big=False):
         if rng.random() < 0.1: body = b'GET / HTTP/1.1\r\n\r\n'[:n].ljust(n, b'x')       # a body that looks like a request
         hs.insert(rng.randrange(len(hs) + 1), ('Content-Length', ('0' * rng.choice([1, 8, 12, 25]) if rng.random() < 0.08 else '') + str(len(body))))          # 1*DIGIT: any number of leading zeros
     if close:
-        hs.append(('Connection', rng.choice(['close', 'Close'])))
+        hs.append(('Connection', rng.choice(['close', 'Close', 'close', 'CLOSE', 'cLoSe', 'close, TE', 'keep-alive, close', 'TE,close', ' close', 'Upgrade,  Close ,TE'])))          # a list of case-insensitive options
         if rng.random() < 0.3: hs.insert(0, ('X-Scrub', '1'))          # the echo application's Scrub fang then removes `Connection` from the request after the handler
-    elif rng.random() < 0.1: hs.append(('Connection', 'keep-alive'))
+    elif rng.random() < 0.1: hs.append(('Connection', rng.choice(['keep-alive', 'keep-alive', 'Keep-Alive, TE', 'closed', 'close-notify', 'TE, disclose'])))          # not `close`
     if rng.random() < 0.12: hs.insert(rng.randrange(len(hs) + 1), ('X-Res-Conn', rng.choice(['keep-alive', 'keep-alive', 'close', 'Keep-Alive, Upgrade'])))          # the Scrub fang then writes this Connection field on the response
     head = f'{m} {path}{q} HTTP/1.1\r\n' + ''.join(f'{k}: {v}\r\n' for k, v in hs) + '\r\n'
     return head.encode(), body
